@@ -1,6 +1,6 @@
 (* C09 - rsass's own CSS output reads back as the same stylesheet.  Theorems only.
    What is proved is the leaf the statement singles out (for the reader of rsass 4637bd2): Display of a quoted
-   CssString (css/string.rs, model Model/CssStr.v) against the quoted-string
+   CssString (css/string.rs, model display_q in Model/CssRead.v) against the quoted-string
    reader of the plain-CSS parser (parser/css/strings.rs, model Model/CssRead.v).
    The stylesheet-level round trip is decided on generated stylesheets only. *)
 From Coq Require Import List NArith Bool.
@@ -12,7 +12,7 @@ Local Open Scope N_scope.
    quote character INCLUDED, any number of times - and either quoting: printing, reading back
    and printing again gives the same text, and the reader consumes exactly the string *)
 Theorem C09_strings_roundtrip : forall k v, k <> QNone -> forallb simple v = true ->
-  reprint (mkStr v k) = Some (css_display (mkStr v k), []).
+  reprint (mkStr v k) = Some (display_q (mkStr v k), []).
 Proof. exact roundtrip. Qed.
 Print Assumptions C09_strings_roundtrip.
 
@@ -20,19 +20,19 @@ Print Assumptions C09_strings_roundtrip.
    rsass itself chooses (pref_dquotes is idempotent on it) *)
 Theorem C09_strings_value_roundtrip : forall k v, k <> QNone -> forallb simple v = true ->
   pref_dquotes (mkStr v k) = mkStr v k ->
-  reprint_value (mkStr v k) = Some (css_display (mkStr v k), []).
+  reprint_value (mkStr v k) = Some (display_q (mkStr v k), []).
 Proof. exact roundtrip_value. Qed.
 Print Assumptions C09_strings_value_roundtrip.
 
 (* the reader inverts Display on the body of such a string, whatever follows the closing quote *)
 Theorem C09_reader_inverts_display : forall q v rest, (q = 34 \/ q = 39) -> forallb simple v = true ->
-  read_body q (flat_map (display_char (Some q)) v ++ q :: rest) = Some (v, rest).
+  read_body q (disp_body q v ++ q :: rest) = Some (v, rest).
 Proof. exact read_display. Qed.
 Print Assumptions C09_reader_inverts_display.
 
 (* the former F12 witness reads back (rsass 4637bd2) *)
 Theorem C09_escaped_quote_reads_back :
-  reprint_value (mkStr [97;34;98;39;99] QDouble) = Some (css_display (mkStr [97;34;98;39;99] QDouble), []).
+  reprint_value (mkStr [97;34;98;39;99] QDouble) = Some (display_q (mkStr [97;34;98;39;99] QDouble), []).
 Proof. exact escaped_quote_reads_back. Qed.
 Print Assumptions C09_escaped_quote_reads_back.
 
